@@ -644,7 +644,8 @@ int parse_instruction_msp430(AsmContext *asm_context, char *instr)
   // on then turn into @reg.
   if (asm_context->optimize == 1)
   {
-    if (operands[0].type == OPTYPE_INDEXED)
+    // 0(PC), 0(SR) and 0(CG) are not @PC, @SR (#4) and @CG (#2).
+    if (operands[0].type == OPTYPE_INDEXED && operands[0].reg > 3)
     {
       if (asm_context->pass == 1)
       {
